@@ -202,6 +202,14 @@ Definition w_unvalidated_degree : xml :=                                        
 Definition w_unvalidated_bvar : xml :=
   m_math [m_eqn (m_apply "diff" [m_el "bvar" [m_leaf "piecewise"]; m_ci "x"]) (m_ci "y")].
 Definition w_not_equation_min : xml := m_math [m_apply "plus" [m_ci "x"; m_leaf "min"]].
+(* token elements below a qualifier are not visited either: their own format rules never run *)
+Definition w_ci_empty_in_bvar : xml :=
+  m_math [m_eqn (m_apply "diff" [m_el "bvar" [m_el "ci" []]; m_ci "t"]) (m_ci "y")].
+Definition cn_units : list attr := [(CELLML_2_0_NS, "units", "dimensionless")].
+Definition w_cn_empty_in_degree : xml :=
+  x_eq (m_apply "root" [m_el "degree" [Elem MATHML_NS "cn" cn_units []]; m_ci "y"]).
+Definition w_cn_sep_in_degree : xml :=
+  x_eq (m_apply "root" [m_el "degree" [Elem MATHML_NS "cn" cn_units [m_leaf "sep"]]; m_ci "y"]).
 
 (** the code as it is now ([fx] = false) *)
 Definition val_now (root : xml) : list rule := val_math_env_gen false std_vars std_units root.
@@ -221,6 +229,9 @@ Lemma gap_apply_without_operand : gap w_apply_without_operand S_NodeNull. Proof.
 Lemma gap_unvalidated_degree : gap w_unvalidated_degree S_EqnNotPrintable. Proof. split; vm_compute; reflexivity. Qed.
 Lemma gap_unvalidated_bvar : gap w_unvalidated_bvar S_ChildNodeOfEmpty. Proof. split; vm_compute; reflexivity. Qed.
 Lemma gap_not_equation_min : gap w_not_equation_min S_ExprNotPrintable. Proof. split; vm_compute; reflexivity. Qed.
+Lemma gap_ci_empty_in_bvar : gap w_ci_empty_in_bvar S_CiNoChild.         Proof. split; vm_compute; reflexivity. Qed.
+Lemma gap_cn_empty_in_degree : gap w_cn_empty_in_degree S_CnNoChild.     Proof. split; vm_compute; reflexivity. Qed.
+Lemma gap_cn_sep_in_degree : gap w_cn_sep_in_degree S_CnSepChain.        Proof. split; vm_compute; reflexivity. Qed.
 
 (** what fixes/C01-mathml-arity.diff closes: the witnesses about min / max / rem are rejected *)
 Lemma arity_fix_closes :
